@@ -188,7 +188,7 @@ class same_class:
     precedence over inlining.  ``extra`` names are inlined wherever they are defined."""
 
     def __init__(self, stop=(), extra=("from_ember_status",)):
-        self.stop, self.extra, self.root = set(stop), set(extra), None
+        self.stop, self.extra, self.root, self.caller = set(stop), set(extra), None, None
 
     def __call__(self, g, awaited):
         if g.name in self.extra:
@@ -204,6 +204,9 @@ class same_class:
             except Exception:
                 return False
         if g.cls is None:
+            c = self.caller
+            if c is not None and getattr(c, "mod", None) == g.mod and not g.is_async:
+                return True  # a plain helper of the module of the (already inlined) function that calls it (a key / padding helper next to its user)
             # module-level helpers of the same module or of a module of the same package (a helper moved next to its tables)
             return g.mod == r.mod or g.mod.startswith(r.mod + ".") or r.mod.startswith(g.mod + ".") or g.mod.rsplit(".", 1)[0] == r.mod.rsplit(".", 1)[0]
         return False
